@@ -9,7 +9,7 @@ from torch.optim import Optimizer as TorchOptimizer
 
 from torchtree.core.identifiable import Identifiable
 from torchtree.core.model import CallableModel
-from torchtree.core.parameter_utils import save_parameters
+from torchtree.core.parameter_utils import keep_other_entries, save_parameters
 from torchtree.core.runnable import Runnable
 from torchtree.core.utils import (
     JSONParseError,
@@ -219,7 +219,9 @@ class Optimizer(Identifiable, Runnable):
             "type": "Optimizer",
         }
         optimizer_state.update(self.state_dict())
-        full_state = [optimizer_state] + self.parameters
+        full_state = keep_other_entries(
+            checkpoint, [optimizer_state] + self.parameters
+        )
         save_parameters(checkpoint, full_state, safely, overwrite)
 
     @classmethod
